@@ -194,6 +194,11 @@ type writer struct {
 	sep string
 }
 
+// (Indentation is not a layout dimension: the AFM specification has every line
+// begin with its key word, and the library itself is not uniform about indented
+// lines — header and character-metric lines are split into fields, kerning
+// lines are matched by prefix.)
+
 // line writes tokens separated by the chosen separator.
 func (w *writer) line(tokens ...string) {
 	w.sb.WriteString(strings.Join(tokens, w.sep))
